@@ -215,10 +215,46 @@ def run_multi(ctx, rng, n_cases):
             compare(ctx, "C04:multi.CCA", "multi.CCA view %d" % j, s, t, ("time",), replay)
 
 
+def run_rotators(ctx, rng, n_cases):
+    """rotators with 3..6 modes: cases where the rotated modes are re-ordered by variance and carry different signs"""
+    import xarray as xr
+    for i in range(n_cases):
+        name = ["EOF", "ComplexEOF"][i % 2]
+        n, p = int(rng.integers(12, 22)), int(rng.integers(5, 10))
+        X = rng.standard_normal((n, p)) @ np.diag(np.linspace(2.0, 0.5, p)) @ rng.standard_normal((p, p)) + rng.standard_normal(p)
+        if name == "ComplexEOF":
+            X = X + 1j * rng.standard_normal((n, p))
+        da = xr.DataArray(X, dims=("time", "x"), coords={"time": np.arange(n), "x": np.arange(p)})
+        k = int(rng.integers(3, min(7, p) + 1))
+        power = int(rng.integers(1, 3))
+        replay = dict(kind="rotator", cls=name, k=k, power=power, data=np.asarray(X))
+        try:
+            m = Z.specs()[name].make(k, solver="full")
+            m.fit(da, "time")
+            rot = Z.rotator_for(name)(n_modes=k, power=power, max_iter=5000, rtol=1e-10)
+            rot.fit(m)
+            rs, rt = rot.scores(), rot.transform(da)
+        except RuntimeError as e:
+            if "converge" in str(e):
+                ctx.dist["rotation-did-not-converge"] += 1
+                continue
+            ctx.violation("C04:error:%sRotator:%s" % (name, C.errkind(e)), "%sRotator raised %r" % (name, e), replay)
+            continue
+        order = [int(v) for v in np.asarray(rot.data["idx_modes_sorted"].values).tolist()] if "idx_modes_sorted" in rot.data else []
+        sign = np.asarray(rot.data["modes_sign"].values).real.tolist() if "modes_sign" in rot.data else []
+        reordered = order != sorted(order)
+        mixed = len(set(np.sign(sign).tolist())) > 1
+        ctx.dist["rotator:reordered=%s,mixed-signs=%s" % (reordered, mixed)] += 1
+        ctx.case(("rot-many", name, n, p, k, power, i), nontrivial=True, tag="%sRotator/k%d/power%d" % (name, k, power),
+                 sample=dict(cls=name + "Rotator", shape=[n, p], k=k, power=power, reordered=reordered, mixed_signs=mixed))
+        compare(ctx, "C04:%sRotator:power%d" % (name, min(power, 2)), "%sRotator(power=%d, n_modes=%d)" % (name, power, k), rs, rt, ("time",), replay)
+
+
 def run(ctx):
     C.setup_impl_env()
     rng = ctx.rng.child("c04").np
     run_single(ctx, rng, ctx.n(60, 1500))
+    run_rotators(ctx, rng, ctx.n(40, 800))
     run_cross(ctx, rng, ctx.n(48, 1200))
     run_multi(ctx, rng, ctx.n(6, 60))
     ctx.oblige("oracle:transform(training) == scores on every transform-capable class", "oracle", not ctx.violations)
@@ -231,7 +267,12 @@ def run(ctx):
 
 
 def search(ctx):
-    pass
+    """a tie broke without a failing input in the regular run: many more rotator and stacked-sample cases"""
+    C.setup_impl_env()
+    rng = ctx.rng.child("c04-search").np
+    run_rotators(ctx, rng, 400)
+    if not ctx.violations:
+        run_single(ctx, rng, 300)
 
 
 def replay(ctx, rp):
